@@ -5,7 +5,8 @@ CONSTANTS
   ML = 1
   MaxRetries = 1
   Repaired = TRUE
-  FinishReturnsHeld = TRUE
+  Prefetch = 0
+  FinishMode = "taken"
 INVARIANT Conservation
 INVARIANT RunningBound
 INVARIANT StartedBound
